@@ -724,6 +724,10 @@ func lemmaWitnesses(c *Ctx, r *Rule, which string) {
 				}
 				if k, isC := rt.Results[1].(*ssa.Const); isC && k.Value.ExactString() == "true" {
 					n++
+					// the element is the first match of a predicate that is HasPrefix(element, prefix)
+					if pred, isFM := firstMatchOf(rt.Results[0], rt.Block()); isFM && predicateRenders(pred, "strings.HasPrefix(p0,prefix)") {
+						return
+					}
 					cs := strings.Join(condStrings(rt.Block()), " && ")
 					if !(strings.Contains(cs, "strings.HasPrefix(") && strings.Contains(cs, ",prefix)=true")) {
 						ok = false
